@@ -177,6 +177,41 @@ theorem cnt_eq_filter_length (n : Nat) (vars : List Nat) (hv : ∀ x ∈ vars, x
   rw [e]
   exact (hperm.filter v).length_eq
 
+theorem filter_change_one : ∀ (r : List Nat), r.Nodup → ∀ (a : Nat) (p q : Nat → Bool),
+    (∀ x, x ≠ a → p x = q x) → (r.filter p).length ≤ (r.filter q).length + 1 := by
+  intro r
+  induction r with
+  | nil => intro _ a p q _; exact Nat.zero_le _
+  | cons y r ih =>
+    intro hnd a p q hpq
+    rw [List.nodup_cons] at hnd
+    by_cases hya : y = a
+    · subst hya
+      have : r.filter p = r.filter q := by
+        apply List.filter_congr
+        intro x hx
+        exact hpq x (fun e => hnd.1 (e ▸ hx))
+      simp only [List.filter_cons, this]
+      split <;> split <;> (try simp only [List.length_cons]) <;> omega
+    · have := ih hnd.2 a p q hpq
+      simp only [List.filter_cons, hpq y hya]
+      split
+      · simp only [List.length_cons]; omega
+      · exact this
+
+/-- at most as many listed variables are true as the list is long -/
+theorem cnt_le_length (n : Nat) (v : Nat → Bool) : ∀ (vars : List Nat), cnt n vars v ≤ vars.length
+  | [] => by simp [cnt]
+  | a :: t => by
+    have ih := cnt_le_length n v t
+    have := filter_change_one (List.range n) List.nodup_range a
+      (fun x => (a :: t).contains x && v x) (fun x => t.contains x && v x) (by
+        intro x hx
+        simp [hx])
+    unfold cnt at ih ⊢
+    simp only [List.length_cons]
+    omega
+
 /-! ### the all-false clause -/
 
 theorem sorted_toValuesFrom : ∀ (pv : PVal) (i : Nat), SortedFrom (i + pv.length) i (PVal.toValuesFrom i pv)
@@ -405,5 +440,38 @@ theorem sem_mkSatUpToK (n k : Nat) (vars : List Nat) (hv : ∀ x ∈ vars, x < n
     (sem_allFalse n vars hv).congr (fun v => by simp)
   have := sem_upToRounds n vars hv k 0 _ h0
   exact this.congr (fun v => by simp)
+
+/-- more rounds than the list is long change nothing any more: every `k` beyond the length gives the same arrays
+    (the constant false for "exactly", the constant true for "at most") -/
+theorem sat_beyond_length (n k k' : Nat) (vars : List Nat) (hk : vars.length < k) (hk' : vars.length < k') :
+    mkSatExactlyK n k vars = mkSatExactlyK n k' vars ∧
+    (vars.length ≤ k → vars.length ≤ k' → mkSatUpToK n k vars = mkSatUpToK n k' vars) := by
+  by_cases hv : ∀ x ∈ vars, x < n
+  · obtain ⟨r, hr, hs⟩ := sem_mkSatExactlyK n k vars hv
+    obtain ⟨r', hr', hs'⟩ := sem_mkSatExactlyK n k' vars hv
+    obtain ⟨u, hu, ht⟩ := sem_mkSatUpToK n k vars hv
+    obtain ⟨u', hu', ht'⟩ := sem_mkSatUpToK n k' vars hv
+    refine ⟨?_, fun _ _ => ?_⟩
+    · rw [hr, hr', hs.unique hs' (fun v => by
+        have := cnt_le_length n v vars
+        have e1 : decide (cnt n vars v = k) = false := by simp; omega
+        have e2 : decide (cnt n vars v = k') = false := by simp; omega
+        rw [e1, e2])]
+    · rw [hu, hu', ht.unique ht' (fun v => by
+        have := cnt_le_length n v vars
+        have e1 : decide (cnt n vars v ≤ k) = true := by simp; omega
+        have e2 : decide (cnt n vars v ≤ k') = true := by simp; omega
+        rw [e1, e2])]
+  · have : ∃ x ∈ vars, n ≤ x := by
+      apply Classical.byContradiction
+      intro hne
+      apply hv
+      intro x hx
+      rcases Nat.lt_or_ge x n with h | h
+      · exact h
+      · exact absurd ⟨x, hx, h⟩ hne
+    obtain ⟨x, hx, hxn⟩ := this
+    obtain ⟨m, hm⟩ := clause_panic n vars x hx hxn
+    simp [mkSatExactlyK, mkSatUpToK, hm]
 
 end B.VS
